@@ -87,6 +87,7 @@ func refSelect(sp world.SPSpec, requested string) []world.ACSSpec {
 
 var c08DefectCatalogue = []Defect{
 	{Name: "bad-base64"}, {Name: "bad-deflate"}, {Name: "truncated-xml"}, {Name: "unclosed-tag"}, {Name: "not-xml"}, {Name: "empty-xml"},
+	{Name: "bad-entity", Param: "undefined/text"}, {Name: "bad-entity", Param: "nbsp/text"}, {Name: "bad-entity", Param: "nbsp/attr"}, {Name: "bad-entity", Param: "copy/attr"}, {Name: "bad-entity", Param: "eacute/text"},
 	{Name: "wrong-root", Param: "LogoutRequest"}, {Name: "wrong-root", Param: "Response"}, {Name: "wrong-root-ns"},
 	{Name: "issuer-absent"}, {Name: "issuer-empty"}, {Name: "issuer-unregistered"}, {Name: "issuer-case"}, {Name: "issuer-blank"}, {Name: "issuer-slash"},
 	{Name: "id-absent"}, {Name: "id-empty"}, {Name: "version-absent"}, {Name: "version-empty"},
@@ -94,6 +95,8 @@ var c08DefectCatalogue = []Defect{
 	{Name: "base64-trailing-garbage", Param: "%21%21%21%21"}, {Name: "base64-trailing-garbage", Param: "%00"}, {Name: "base64-trailing-garbage", Param: "%3Cscript%3E"}, {Name: "base64-trailing-garbage", Param: "*"},
 	{Name: "base64-middle-garbage", Param: "%21"}, {Name: "base64-url-alphabet"},
 	{Name: "dest-other-host"}, {Name: "dest-other-path"}, {Name: "dest-trailing-slash"}, {Name: "dest-path-case"}, {Name: "dest-scheme"}, {Name: "dest-prefix"},
+	{Name: "dest-query", Param: "?tenant=other"}, {Name: "dest-query", Param: "?"}, {Name: "dest-fragment", Param: "#x"}, {Name: "dest-userinfo", Param: "sp.example.net@"}, {Name: "dest-userinfo", Param: "user:pw@"},
+	{Name: "dest-dot-segment"}, {Name: "dest-double-slash"}, {Name: "dest-host-dot"},
 	{Name: "nb-future", Param: "10"}, {Name: "nb-future", Param: "3600"}, {Name: "nb-future", Param: "315360000"},
 	{Name: "noa-past", Param: "10"}, {Name: "noa-past", Param: "3600"}, {Name: "noa-past", Param: "315360000"},
 	{Name: "nb-abs", Param: "9999-12-31T23:59:59Z"}, {Name: "nb-abs", Param: "2400-01-01T00:00:00Z"}, {Name: "nb-abs", Param: "2262-04-12T00:00:00.5Z"}, {Name: "nb-abs", Param: "2038-01-19T03:14:08Z"},
@@ -179,6 +182,26 @@ func applyModelDefect(c *SSOCase, d Defect, host string) {
 		}
 	case "dest-prefix":
 		r.Destination = adv[:len(adv)-1]
+	case "dest-query", "dest-fragment":
+		r.Destination = adv + d.Param
+	case "dest-userinfo":
+		r.Destination = strings.Replace(adv, "://", "://"+d.Param, 1)
+	case "dest-dot-segment":
+		i := strings.LastIndex(adv, "/")
+		r.Destination = adv[:i] + "/x/.." + adv[i:]
+	case "dest-double-slash":
+		i := strings.LastIndex(adv, "/")
+		r.Destination = adv[:i] + "/" + adv[i:]
+	case "dest-host-dot":
+		// the same host written as a fully qualified name (trailing dot): another string, hence not the advertised location
+		sch, rest, _ := strings.Cut(adv, "://")
+		h, p, _ := strings.Cut(rest, "/")
+		if hh, port, ok := strings.Cut(h, ":"); ok && !strings.Contains(hh, "]") && !strings.HasPrefix(h, "[") {
+			h = hh + ".:" + port
+		} else if !strings.HasPrefix(h, "[") {
+			h += "."
+		}
+		r.Destination = sch + "://" + h + "/" + p
 	case "dest-of-other-tenant":
 		// the location this IdP advertises under another request host: valid there, not here
 		r.Destination = c.Spec.IdP.Advertised("sso", d.Param)
